@@ -7,6 +7,8 @@ THEOREMS = ['C16_trace', 'C16_identity', 'C16_upstream', 'C16_override', 'C16_cb
             'C16_model_callback_correct', 'C16_model_callback_override', 'C16_model_identity', 'C16_model_trace', 'C16_sim_case8_cb_correct']
 
 THEOREMS += ['C16_callback_loop_structure', 'C16_callback_loop_source_is_model']
+THEOREMS += ['C16_callback_loop8_source_is_model', 'C16_callback_loop8_source_is_model_build', 'C16_callback_loop4_source_is_model',
+             'C16_callback_loop8_source_nonvacuous']
 
 
 def to_bp_row(logic, codes, mdim):
